@@ -10,6 +10,7 @@ package main
 
 import (
 	"fmt"
+	"math/big"
 	"strings"
 	"time"
 
@@ -42,7 +43,7 @@ type env struct {
 
 // classify maps a failure of the real decoder to a finding signature: a narrow predicate on the kind of
 // failure and on the function the stack trace puts it in ("" = not a known finding).
-func classify(res, stack string) string {
+func classify(res, stack string, ty string, in []byte) string {
 	inSplit := strings.Contains(stack, "ua.split(")
 	inVariant := strings.Contains(stack, "ua.(*Variant).Decode")
 	inSlice := strings.Contains(stack, "ua.decodeSlice")
@@ -51,12 +52,12 @@ func classify(res, stack string) string {
 		if inVariant && !inSplit {
 			return "C02.variant-neg-len"
 		}
-	case "fail panic-slice":
-		if inSplit {
+	case "fail panic-slice", "fail panic-index":
+		if inSplit && dimsWrap(ty, in) {
 			return "C02.variant-dims-overflow"
 		}
 	case "fail hang":
-		if inSplit {
+		if inSplit && dimsWrap(ty, in) {
 			return "C02.variant-dims-overflow"
 		}
 		if inVariant && strings.Contains(stack, "reflect.MakeSlice") || inVariant && strings.Contains(stack, "decodeValue") {
@@ -67,7 +68,10 @@ func classify(res, stack string) string {
 	case "fail oom", "fail memory":
 		switch {
 		case inSplit:
-			return "C02.variant-dims-overflow"
+			if dimsWrap(ty, in) {
+				return "C02.variant-dims-overflow"
+			}
+			return ""
 		case inSlice && strings.Contains(stack, "reflect.MakeSlice") && !inVariant:
 			return "C02.slice-prealloc"
 		case inSlice && strings.Contains(stack, "reflect.MakeSlice") && strings.Index(stack, "ua.decodeSlice") < indexOr(stack, "ua.(*Variant).Decode"):
@@ -80,6 +84,43 @@ func classify(res, stack string) string {
 		}
 	}
 	return ""
+}
+
+// dimsWrap: the input is a Variant array of a fixed-width element type whose dimension list has an int32 product
+// equal to the array length although the true product differs (the defect behind C02.variant-dims-overflow).
+func dimsWrap(ty string, b []byte) bool {
+	if ty != "variant" || len(b) < 9 || b[0]&0xc0 != 0xc0 {
+		return false
+	}
+	width := map[byte]int{1: 1, 2: 1, 3: 1, 4: 2, 5: 2, 6: 4, 7: 4, 8: 8, 9: 8, 10: 4, 11: 8, 13: 8, 19: 4}[b[0]&0x3f]
+	if width == 0 {
+		return false
+	}
+	alen := int32(uint32(b[1]) | uint32(b[2])<<8 | uint32(b[3])<<16 | uint32(b[4])<<24)
+	p := 5
+	if alen > 0 {
+		p += int(alen) * width
+	}
+	if alen > 65535 || len(b) < p+4 {
+		return false
+	}
+	u32 := func(i int) uint32 { return uint32(b[i]) | uint32(b[i+1])<<8 | uint32(b[i+2])<<16 | uint32(b[i+3])<<24 }
+	dl := int(int32(u32(p)))
+	p += 4
+	if dl < 2 || dl > 64 || len(b) < p+4*dl {
+		return false
+	}
+	wrapped := int32(1)
+	exact := new(big.Int).SetInt64(1)
+	for i := 0; i < dl; i++ {
+		d := int32(u32(p + 4*i))
+		if d < 1 {
+			return false
+		}
+		wrapped *= d
+		exact.Mul(exact, big.NewInt(int64(d)))
+	}
+	return wrapped == alen && exact.Cmp(big.NewInt(int64(alen))) != 0
 }
 
 func indexOr(s, sub string) int {
@@ -158,7 +199,7 @@ func (e *env) run(family string, ti int, in codecx.Input) {
 		}
 		if o.Alloc > uint64(64*len(b)+memBound) && strings.HasPrefix(o.Res, "fail err") || o.Alloc > uint64(64*len(b)+memBound) && strings.HasPrefix(o.Res, "ok") {
 			// too much memory for this input although it returned: get the allocation site from a child with a small limit
-			o2 := codecx.DecodeInChild(ti, in, 1200<<20, childTimeout)
+			o2 := codecx.DecodeInChild(ti, in, childAS, childTimeout)
 			if o2.Res == "fail oom" {
 				o.Stack = o2.Stack
 			}
@@ -212,9 +253,14 @@ func (e *env) judge(c, pred string, o codecx.Outcome, inLen int, family string) 
 	if ok {
 		return
 	}
-	sig := classify(strings.TrimPrefix(res, "alloc-bound fail err"), o.Stack)
+	ty, hx := splitCase(c)
+	var raw []byte
+	if in, err := codecx.ParseInput(hx); err == nil && in.Count == 0 {
+		raw = in.Suffix
+	}
+	sig := classify(res, o.Stack, ty, raw)
 	if strings.HasPrefix(res, "alloc-bound") {
-		sig = classify("fail oom", o.Stack)
+		sig = classify("fail oom", o.Stack, ty, raw)
 	}
 	detail := fmt.Sprintf("Decode of %d bytes: %s", inLen, trunc(res, 200))
 	if strings.HasPrefix(res, "alloc-bound") {
